@@ -31,7 +31,7 @@ def mutated_samples(seed, n):
     while len(out) < n:
         b = bytearray(r.choice(bases))
         for _ in range(r.choice([1, 1, 2, 4, 8])):
-            k = r.randrange(6)
+            k = r.randrange(7)
             pos = r.randrange(len(b)) if b else 0
             if k == 0 and b:
                 b[pos] = r.randrange(256)
@@ -47,6 +47,12 @@ def mutated_samples(seed, n):
                 e = b.find(b"\n", pos)
                 line = b[s:e if e > 0 else len(b)]
                 b[pos:pos] = line                                     # splice a record into another
+            elif k == 5 and b:
+                # a letter inside a B record (late field errors: altitude, extension digits)
+                bs = [i for i in range(len(b)) if b[i:i + 1] == b"B" and (i == 0 or b[i - 1:i] == b"\n")]
+                if bs:
+                    s0 = r.choice(bs)
+                    b[min(len(b) - 1, s0 + r.randrange(24, 40))] = ord(r.choice("XZ-."))
             elif b:
                 b = b[:pos]
         out.append(dict(fam="bytes", b64=base64.b64encode(bytes(b[:8000])).decode()))
